@@ -423,25 +423,27 @@ SPECS['C19'] = dict(
                 'real BaseProcess._bootstrap with run() returning, raising, or calling sys.exit(x) for symbolic x, composed with the kernel '
                 'model (code & 0xff) << 8 and the decoder.',
     functions=['billiard.popen_fork.Popen.poll', 'Popen.wait', 'billiard.process.BaseProcess.start', 'join', 'is_alive', 'exitcode', '_bootstrap'],
-    bounds={'quick': '3 successive polls over a script of 5 waitpid outcomes; all 16-bit statuses; exit codes -3..300; signals 1..64',
-            'thorough': '4 polls'},
-    outside=['fork/exec themselves, spawn and forkserver child start-up', 'forkserver Popen.poll (reads the status from a pipe; its 255-on-EOF rule '
-             'is two lines and is exercised by the seeded-change demos only)', 'join(timeout) wall-clock'],
+    bounds={'quick': '3 successive polls over a script of 5 waitpid outcomes; all 16-bit statuses; exit codes -3..300; signals 1..64; forkserver: codes {0,1,2,3,77,255}, the 8 status bytes split at any position, EOF / partial data / read error',
+            'thorough': '4 polls; forkserver: codes {0,1,2,3,77,255}, the 8 status bytes split at any position, EOF / partial data / read error'},
+    outside=['fork/exec themselves, spawn and forkserver child start-up', 'the forkserver\'s own serving loop (forkserver.main/_serve_one: real sockets and fd passing)', 'join(timeout) wall-clock'],
     assumptions=['wait-status macros are pure-Python bit operations validated against os.W* on all 65536 statuses every run',
                  'waitpid without WUNTRACED never reports stopped/continued statuses', 'logging re-initialisation, after-fork hooks and '
                  'exit functions in _bootstrap are stubbed'],
     trusted_base=TRUST,
     obligations=[
         smt('waitstatus-model', 'harness.c19', 'v_waitstatus', 'stub validation', kind='validate'),
-        ch('poll', 'harness.c19', 'h_poll', 'returncode None until a poll sees the own pid, the decoded status afterwards, never changes, child never waited twice',
-           timeout=(300, 1500)),
-        twin('poll', 'harness.c19', 'h_poll_twin', 'a run reporting a signal death exists'),
+    ] + parts(ch('poll', 'harness.c19', 'h_poll', 'returncode None until a poll sees the own pid, the decoded status afterwards, never changes, child never waited twice',
+                 timeout=(300, 1500)), 5)
+      + parts(twin('poll', 'harness.c19', 'h_poll_twin', 'a run reporting a signal death exists'), 5) + [
         ch('exit-roundtrip', 'harness.c19', 'h_exit_roundtrip', 'exit(n) -> n for 0..255, signal s (with or without core) -> -s for 1..64', timeout=(200, 900), nontrivial_witness=True),
         ch('wait', 'harness.c19', 'h_wait', 'timed wait returns None without reaping when the child did not end; otherwise the decoded status', timeout=(200, 900), nontrivial_witness=True),
         ch('guards', 'harness.c19', 'h_guards', 'start only once and only by the creator; alive/exitcode None until the end; after join not an active child',
            timeout=(300, 1500), nontrivial_witness=True),
         ch('wait-deadline', 'harness.c19', 'h_wait_deadline', 'the readiness wait under join(timeout): a non-positive timeout polls once without blocking, the kernel wait is never '
            'entered without a timeout or with more than was asked', timeout=(300, 1500), nontrivial_witness=True),
+        ch('forkserver-poll', 'harness.c19', 'h_forkserver_poll', 'real popen_forkserver.Popen.poll + forkserver.read_unsigned over a scripted sentinel pipe: None (and no read) until the '
+           'child has ended; the code the child wrote, however the 8 bytes are split; a non-zero status when the child was killed before writing all of it (EOF, '
+           'partial data, read error); stable afterwards', timeout=(200, 900), nontrivial_witness=True),
         ch('bootstrap', 'harness.c19', 'h_bootstrap', 'through the child branch of the real Popen._launch: return -> 0, exception -> 1, sys.exit(n) -> n, also when flushing stdout/stderr at exit fails (unwritable, detached, unimplemented, closed); n survives kernel + decoder for 0..255', timeout=(300, 1500), nontrivial_witness=True),
     ],
 )
